@@ -384,7 +384,9 @@ def async_hsm_stream(tier, seed):
         cases.append(c)
     mo = F.run_model(3, [hsm.enc_case(c) for c in cases])
     io = F.run_impl('hsm', 'impl_hsm_async', cases)
-    bad = [(c, m, i) for c, m, i in zip(cases, mo, io) if m != i]
+    # (the value a hierarchical trigger returns after its exception was swallowed by on_exception handlers is
+    # event_data.result as last assigned - masked on both sides as in C04's hierarchical streams, DESIGN section 9)
+    bad = [(c, m, i) for c, m, i in zip(cases, mo, io) if hsm.mask_handled(c, m) != hsm.mask_handled(c, i)]
     may_true = sum(1 for m in mo if isinstance(m, list) and m[0] == 1 for j, st in enumerate(m[2]) if j % 2 == 0 and st[1] == [0, True])
     detail = dict(cases=len(cases), disagreements=len(bad), may_true=may_true)
     if bad:
